@@ -157,7 +157,7 @@ def step (toks : List String) : String :=
   | "W" :: co :: ke :: cr :: c2 :: sa :: kp :: fx :: isy :: rc :: al :: ops =>
     match coordOf co, ke.toNat?, cr.toNat?, ops.mapM groupOf with
     | some co, some ke, some cr, some ops =>
-      runGroups whMachine (⟨co, ke, cr, b01 c2, b01 sa, b01 kp, b01 fx⟩, ⟨b01 isy, b01 rc, b01 al⟩) ops []
+      runGroups whMachine (⟨co, ke, cr, b01 c2, b01 sa, b01 kp, b01 fx, false⟩, ⟨b01 isy, b01 rc, b01 al⟩) ops []
     | _, _, _, _ => "bad-op"
   | "S" :: ty :: sa :: kp :: ci :: isy :: rc :: al :: ops =>
     match ty.toNat?, ops.mapM groupOf with
@@ -168,9 +168,9 @@ def step (toks : List String) : String :=
     match p0.toNat?, p1.toNat?, n.toNat? with
     | some p0, some p1, some n => runEos p0 p1 n (fl dt) (b01 sa) (b01 isy) ops []
     | _, _, _ => "bad-op"
-  | "V" :: sa :: kp :: isy :: rc :: al :: ops =>
+  | "V" :: sa :: kp :: vf :: isy :: rc :: al :: ops =>
     match ops.mapM groupOf with
-    | some ops => runGroups varMachine (⟨.jacobi, 0, 0, false, b01 sa, b01 kp, false⟩, ⟨b01 isy, b01 rc, b01 al⟩) ops []
+    | some ops => runGroups varMachine (⟨.jacobi, 0, 0, false, b01 sa, b01 kp, false, b01 vf⟩, ⟨b01 isy, b01 rc, b01 al⟩) ops []
     | none => "bad-op"
   | "MC" :: sa :: isy :: rc :: rr :: ad :: atm :: ops =>
     match ops.mapM groupOf with
